@@ -201,6 +201,7 @@ func TestVerifC19V2(t *testing.T) {
 	for _, withDID := range []bool{false, true} {
 		cfgName := map[bool]string{false: "nodeDID-unset", true: "nodeDID-set"}[withDID]
 		fix := verifC19NewFix(t, withDID)
+		s.OnAbandon = func() { fix = verifC19NewFix(t, withDID) }
 		// run handles one message; h gets the connection so that live conversations can be opened first
 		run := func(entry, desc string, build func(f *verifC19Fix, c *grpc.StubConnection) (*Envelope, handleFunc)) {
 			for _, auth := range []bool{false, true} {
@@ -225,7 +226,7 @@ func TestVerifC19V2(t *testing.T) {
 						return "ok"
 					}
 				})
-				if ran && res.Panicked {
+				if ran && (res.Panicked || res.TimedOut) {
 					// poison guard: never touch the old store again
 					fix = verifC19NewFix(t, withDID)
 				} else if ran && fix.digest() != fix.baseline {
